@@ -85,7 +85,13 @@ static inline void multikey_quicksort(const StringPtr& strptr, size_t depth,
     static const size_t memory_use =
         2 * sizeof(size_t) + sizeof(StringSet) + 5 * sizeof(Iterator);
 
+#if defined(TLX_VERIF) && defined(TLX_VERIF_INSSORT_THRESHOLD)
+    // verification hook: lowered switch-over to insertion sort
+    if (n < TLX_VERIF_INSSORT_THRESHOLD ||
+        (memory != 0 && memory < memory_use + 1))
+#else
     if (n < 32 || (memory != 0 && memory < memory_use + 1))
+#endif
     {
         return insertion_sort(strptr, depth, memory);
     }
